@@ -513,37 +513,8 @@ func (s *TxnSite) leaderGuarded(P *Prog) (bool, string) {
 		P.collectKeyAtoms(cm.Key, k, 2, map[ssa.Value]bool{})
 		return k.Fields[leaderKey] || k.Consts["leader"]
 	}
-	// When the If(...) is visible in this function its argument is examined per
-	// control-flow alternative: the leader comparator must be present on each.
-	if s.If != nil && len(s.If.Call.Args) == 1 {
-		alts := sliceAlternatives(s.If.Call.Args[0], 6)
-		for ai, alt := range alts {
-			has := false
-			for _, e := range alt {
-				vals := valueAlternatives(e, 3)
-				allLeader := len(vals) > 0
-				for _, v := range vals {
-					one := false
-					for _, cm := range P.resolveCmp(v, 2) {
-						if isLeaderCmp(cm) {
-							one = true
-						}
-					}
-					if !one {
-						allLeader = false
-					}
-				}
-				if allLeader {
-					has = true
-				}
-			}
-			if !has {
-				return false, fmt.Sprintf("comparator alternative #%d of %d carries no leader comparator", ai+1, len(alts))
-			}
-		}
-		if len(alts) > 0 {
-			return true, "leader comparator on every comparator alternative"
-		}
+	if ok, why, decided := s.everyAlternativeHas(P, isLeaderCmp, "leader comparator"); decided {
+		return ok, why
 	}
 	for _, cm := range s.Cmps {
 		if isLeaderCmp(cm) {
@@ -557,12 +528,61 @@ func (s *TxnSite) leaderGuarded(P *Prog) (bool, string) {
 	return false, "comparators: [" + strings.Join(ds, "; ") + "]"
 }
 
-func (s *TxnSite) hasCreateRevisionZero(key ssa.Value) bool {
-	for _, cm := range s.Cmps {
+// everyAlternativeHas: when the If(...) is visible in this function its
+// argument is examined per control-flow alternative (φ edges of the slice, of
+// its elements): a comparator satisfying pred must be present on each one.
+// decided is false when the If argument cannot be enumerated.
+func (s *TxnSite) everyAlternativeHas(P *Prog, pred func(Cmp) bool, what string) (ok bool, why string, decided bool) {
+	if s.If == nil || len(s.If.Call.Args) != 1 {
+		return false, "", false
+	}
+	alts := sliceAlternatives(s.If.Call.Args[0], 6)
+	for ai, alt := range alts {
+		has := false
+		for _, e := range alt {
+			vals := valueAlternatives(e, 3)
+			allOK := len(vals) > 0
+			for _, v := range vals {
+				one := false
+				for _, cm := range P.resolveCmp(v, 2) {
+					if pred(cm) {
+						one = true
+					}
+				}
+				if !one {
+					allOK = false
+				}
+			}
+			if allOK {
+				has = true
+			}
+		}
+		if !has {
+			return false, fmt.Sprintf("comparator alternative #%d of %d carries no %s", ai+1, len(alts), what), true
+		}
+	}
+	if len(alts) > 0 {
+		return true, what + " on every comparator alternative", true
+	}
+	return false, "", false
+}
+
+func (s *TxnSite) hasCreateRevisionZero(P *Prog, key ssa.Value) bool {
+	pred := func(cm Cmp) bool {
 		if cm.Target == "CreateRevision" && cm.Op == "=" && cm.Key != nil {
 			if z, ok := constInt(cm.Val); ok && z == 0 && (key == nil || sameVal(cm.Key, key)) {
 				return true
 			}
+		}
+		return false
+	}
+	// on every control-flow alternative of the If argument, not just on one
+	if ok, _, decided := s.everyAlternativeHas(P, pred, "CreateRevision(key) = 0"); decided {
+		return ok
+	}
+	for _, cm := range s.Cmps {
+		if pred(cm) {
+			return true
 		}
 	}
 	return false
